@@ -320,6 +320,52 @@ void h_free(void *p, const char *fn, int line) {
     free(p);
 }
 
+/* ------------------------------------------------------------ exec recording (C20) */
+#include <sys/mman.h>
+static int execlog_fd = -1;
+void h_execlog_reset(void) {
+    if (execlog_fd < 0)
+        execlog_fd = memfd_create("execlog", 0);
+    ftruncate(execlog_fd, 0);
+    lseek(execlog_fd, 0, SEEK_SET);
+}
+/* runs in the forked child: write " exec:<hex file>;<hex arg0>,<hex arg1>,.." and leave */
+int h_execlp(const char *file, const char *arg0, ...) {
+    va_list ap;
+    const char *a;
+    char buf[8192], *q = buf;
+    int first = 1;
+    q += sprintf(q, " exec:");
+    for (const char *c = file; *c && q < buf + 4000; c++)
+        q += sprintf(q, "%02x", (unsigned char)*c);
+    q += sprintf(q, ";");
+    va_start(ap, arg0);
+    for (a = arg0; a; a = va_arg(ap, const char *)) {
+        if (!first)
+            *q++ = ',';
+        first = 0;
+        if (!*a)
+            *q++ = '-';
+        for (const char *c = a; *c && q < buf + 8000; c++)
+            q += sprintf(q, "%02x", (unsigned char)*c);
+    }
+    va_end(ap);
+    if (execlog_fd >= 0)
+        write(execlog_fd, buf, q - buf);
+    _exit(0);
+}
+char *h_execlog_take(void) {
+    static char buf[8300];
+    ssize_t n = 0;
+    buf[0] = 0;
+    if (execlog_fd >= 0) {
+        lseek(execlog_fd, 0, SEEK_SET);
+        n = read(execlog_fd, buf, sizeof(buf) - 1);
+        buf[n > 0 ? n : 0] = 0;
+    }
+    return buf;
+}
+
 /* ------------------------------------------------------------ lock-order recording (C17) */
 #define MAXHELD 32
 static __thread struct {
